@@ -566,21 +566,15 @@ func (t *Terminal) handleKey(key rune) (line []string, ok bool) {
 		t.advanceCursor(visualLength(t.prompt))
 		t.setLine(t.line, t.pos)
 	case keyEnter:
-		strline := strings.TrimSpace(string(t.line))
-		// if the last thing entered was a query terminator
-		if len(strline) == 0 || strline[len(strline)-1:] == ";" {
+		// if the last thing entered was a query terminator (a semicolon
+		// inside quotes is part of a literal, not a terminator)
+		if queries, complete := splitQueries(t.line); complete {
 			// not sure what this is for
 			t.moveCursorToPos(len(t.line))
 			t.queue([]rune("\r\n"))
 
 			// split string until queries terminated by ;
-			begin := 0
-			for cur := 0; cur < len(t.line); cur++ {
-				if t.line[cur] == 59 {
-					line = append(line, strings.TrimSpace(string(t.line[begin:cur+1])))
-					begin = cur + 1
-				}
-			}
+			line = queries
 
 			ok = true
 			t.line = t.line[:0]
@@ -623,6 +617,28 @@ func (t *Terminal) handleKey(key rune) (line []string, ok bool) {
 		t.addKeyToLine(key)
 	}
 	return
+}
+
+// splitQueries cuts the input at every semicolon that is not inside a single-
+// or double-quoted literal. complete is true if nothing but blanks follows
+// the last terminator, i.e. the input can be submitted.
+func splitQueries(input []rune) (queries []string, complete bool) {
+	begin := 0
+	var quote rune
+	for cur := 0; cur < len(input); cur++ {
+		switch c := input[cur]; {
+		case quote != 0 && c == '\\':
+			cur++ // escaped character inside a literal
+		case quote != 0 && c == quote:
+			quote = 0
+		case quote == 0 && (c == '\'' || c == '"'):
+			quote = c
+		case quote == 0 && c == ';':
+			queries = append(queries, strings.TrimSpace(string(input[begin:cur+1])))
+			begin = cur + 1
+		}
+	}
+	return queries, len(strings.TrimSpace(string(input[begin:]))) == 0
 }
 
 // addKeyToLine inserts the given key at the current position in the current
